@@ -215,11 +215,16 @@ func (r *rewriter) stmt(s ast.Stmt) ast.Stmt {
 			r.n++
 			it := ast.NewIdent(fmt.Sprintf("__mi%d", r.n))
 			var lhs, rhs []ast.Expr
-			if x.Key != nil {
+			isBlank := func(e ast.Expr) bool {
+				id, ok := e.(*ast.Ident)
+				return ok && id.Name == "_"
+			}
+			// blank range variables (for _, v := range m) are simply not bound
+			if x.Key != nil && !isBlank(x.Key) {
 				lhs = append(lhs, x.Key)
 				rhs = append(rhs, call(&ast.SelectorExpr{X: ast.NewIdent(it.Name), Sel: ast.NewIdent("Key")}))
 			}
-			if x.Value != nil {
+			if x.Value != nil && !isBlank(x.Value) {
 				lhs = append(lhs, x.Value)
 				rhs = append(rhs, call(&ast.SelectorExpr{X: ast.NewIdent(it.Name), Sel: ast.NewIdent("Val")}))
 			}
